@@ -476,8 +476,19 @@ def main(argv):
 def standard_run(pid, cfg, exe, seed, tier, outdir, profile, model=True, case=None):
     r = {"problems": [], "dis": [], "fails": [], "evaluations": 0, "distinct": 0, "lines": 0, "samples": [], "distribution": {}}
     rc, out, dt = run_harness(exe, cfg, seed, tier, outdir, case=case)
+    died = None
     if rc != 0:
-        r["problems"].append(f"harness run ({profile}) exited {rc}: {out[-300:]}")
+        infl = os.path.join(outdir, "inflight.txt")
+        if os.path.exists(infl):
+            try:
+                died = int(open(infl).read().strip())
+            except Exception:
+                died = -1
+            with open(os.path.join(outdir, "oracle.txt"), "a") as f:
+                tail = out.strip().splitlines()[-1][:200] if out.strip() else ""
+                f.write(f"{died}\tprocess-died\tharness process died (exit status {rc}) while the library was running case {died}: {tail}\n")
+        else:
+            r["problems"].append(f"harness run ({profile}) exited {rc}: {out[-300:]}")
     st = {}
     try:
         st = json.load(open(os.path.join(outdir, "stats.json")))
@@ -495,6 +506,12 @@ def standard_run(pid, cfg, exe, seed, tier, outdir, profile, model=True, case=No
     case_op = {}
     for i, c in enumerate(ids):
         case_op.setdefault(c, ops[i] if i < len(ops) else "")
+    inc = cfg.get("sig_include")
+    exc = cfg.get("sig_exclude")
+    if inc:
+        fails = [f for f in fails if re.search(inc, f["sig"])]
+    if exc:
+        fails = [f for f in fails if not re.search(exc, f["sig"])]
     for f in fails:
         f["profile"] = profile
         f["op"] = case_op.get(str(f["case"]), "")
